@@ -74,7 +74,7 @@ func cmdDump(args []string) {
 // verifyFunc generates and discharges the obligations of one function.
 var genMu sync.Mutex
 
-func verifyFunc(w *world, fn *ssa.Function, lite bool, depth int, exclude []string, locks []string, opt dischargeOpts) (g *gen, res []result, err error) {
+func verifyFunc(w *world, fn *ssa.Function, lite bool, depth int, exclude []string, locks []string, only []string, opt dischargeOpts) (g *gen, res []result, err error) {
 	defer func() {
 		if r := recover(); r != nil {
 			err = fmt.Errorf("engine failure on %s: %v\n%s", fnKeyQ(fn), r, debug.Stack())
@@ -102,6 +102,7 @@ func verifyFunc(w *world, fn *ssa.Function, lite bool, depth int, exclude []stri
 			g.maxDepth = depth
 		}
 		g.loopHavocAll = havocLoops
+		g.onlyPats = only
 		if c := w.contractOf(fn); c != nil && c.absDivMod {
 			g.absDivMod = true
 		}
@@ -139,13 +140,24 @@ func verifyFunc(w *world, fn *ssa.Function, lite bool, depth int, exclude []stri
 		}
 		g.oblige(obligation{name: "cover:" + fnKeyQ(fn) + ":some-return-reachable", kind: "cover", guard: "true", cond: cond, cover: true})
 	}
-	if len(exclude) > 0 {
+	if len(exclude) > 0 || len(only) > 0 {
 		var kept []obligation
 		for _, o := range g.obls {
 			drop := false
 			for _, p := range exclude {
 				if globMatch(p, o.name) {
 					drop = true
+				}
+			}
+			if len(only) > 0 && !o.cover {
+				match := false
+				for _, p := range only {
+					if globMatch(p, o.name) {
+						match = true
+					}
+				}
+				if !match {
+					continue // outside the scope of this unit (neither claimed nor assumed nor listed)
 				}
 			}
 			if drop {
@@ -173,9 +185,14 @@ func cmdFn(args []string) {
 	verbose := fs.Bool("v", false, "print discharged obligations too")
 	depth := fs.Int("depth", -1, "inline depth for callees without contract (-1 = default)")
 	locks := fs.String("locks", "", "lite: comma separated mutex field names to track")
+	onlyF := fs.String("only", "", "comma separated obligation patterns to keep")
 	fs.Parse(args)
 	if *locks != "" {
 		lockFilter = strings.Split(*locks, ",")
+	}
+	var onlyPats []string
+	if *onlyF != "" {
+		onlyPats = strings.Split(*onlyF, ",")
 	}
 	t0 := time.Now()
 	w, err := loadWorld(strings.Split(*pkgs, ","))
@@ -192,7 +209,7 @@ func cmdFn(args []string) {
 			continue
 		}
 		t1 := time.Now()
-		g, res, err := verifyFunc(w, fn, *lite, *depth, nil, lockFilter, dischargeOpts{dir: *out, timeout: *timeout, parallel: parallelism(), keep: *keep})
+		g, res, err := verifyFunc(w, fn, *lite, *depth, nil, lockFilter, onlyPats, dischargeOpts{dir: *out, timeout: *timeout, parallel: parallelism(), keep: *keep})
 		if err != nil {
 			fmt.Println(err)
 			failed++
@@ -244,6 +261,7 @@ type propUnit struct {
 	Tier    string   `json:"tier,omitempty"`    // "thorough": only in the thorough tier
 	Depth   *int     `json:"depth,omitempty"`   // inline depth for callees without contract (default 4)
 	Locks   []string `json:"locks,omitempty"`   // lite units: mutex field names to track (default all)
+	Only    []string `json:"only,omitempty"`    // claim only obligations matching these patterns (the others are dropped, not assumed)
 	Exclude []string `json:"exclude,omitempty"` // obligation name patterns (* wildcard) generated but NOT claimed; listed in the evidence
 	Why     string   `json:"why_excluded,omitempty"`
 }
@@ -446,7 +464,7 @@ func cmdCheck(args []string) {
 				defer uwg.Done()
 				usem <- struct{}{}
 				defer func() { <-usem }()
-				g, res, err := verifyFunc(w, fn, u.Lite, u.depth(), u.Exclude, u.Locks, dischargeOpts{dir: smtDir, timeout: timeout, parallel: parallelism(), cross: *tier == "thorough", keep: *keep})
+				g, res, err := verifyFunc(w, fn, u.Lite, u.depth(), u.Exclude, u.Locks, u.Only, dischargeOpts{dir: smtDir, timeout: timeout, parallel: parallelism(), cross: *tier == "thorough", keep: *keep})
 				outs[ui] = unitOut{g, res, err, fn}
 			}(ui, u, fn)
 		}
